@@ -8,9 +8,10 @@ from ..core import pyfacts as pf
 from ..core.defuse import is_identity
 from ..core.effects import effects
 from ..core.larkfacts import grammar_facts
+from ..core.defuse import flow_of
 from ..core.match import canon, txt
 from ..core.source import AnchorMissing
-from .common import DEC, DECGRAMMAR, PUTIL, builder_sites, ckey, enclosing_try_parts, fn, returns, stmt_of, where
+from .common import DEC, DECGRAMMAR, PUTIL, builder_sites, ckey, enclosing, enclosing_try_parts, fn, returns, stmt_of, where
 
 PROP = "C03"
 FILES = [DEC, PUTIL, DECGRAMMAR]
@@ -143,7 +144,8 @@ def c03_3(ctx, ss):
             kk = ckey(m, None, w.how)
             if name == "__init__" and r[0] == "state":
                 ctx.holds("C03.3", kk, where(m, w.node), "constructor initialises its own table", 1)
-            elif name == "particle" and r == ("param", "tree") and w.how.replace(" ", "") == "storetree.children[0].value":
+            elif name == "particle" and r == ("param", "tree") and w.how.startswith("store ") and isinstance(w.node, ast.Assign) \
+                    and txt(flow_of(ss, m).expand(w.node.targets[0])) == "tree.children[0].value":       # (expanded: the token may be held in a local)
                 ctx.holds("C03.3", kk, where(m, w.node), "writes the LABEL token value of the visited particle node", 1)
             elif r[0] == "state" and r[1] == "self.charge_conj_defs":
                 ctx.holds("C03.3", kk, where(m, w.node), "memoises a name pair in its own table", 1)
@@ -239,31 +241,52 @@ def c03_5(ctx, ss):
 
 def c03_6(ctx, ss):
     ff, flow = fn(ss, DEC, ACC)
-    # (a) names removed from the CDecay list are exactly those with a Decay block
-    removes = [c for c in pf.calls_in(ff.node) if isinstance(c.func, ast.Attribute) and c.func.attr == "remove"]
+    WORK = "self.list_charge_conjugate_decays()"
+    NAMES = canon("[get_decay_mother_name(__elem__(self._parsed_decays)) for tree in self._parsed_decays]")
+    # the main loop: the one that looks each CDecay name up
+    # (role: the loop that collects the trees which are deep-copied afterwards)
+    src0 = None
+    for c in pf.calls_in(ff.node):
+        if txt(c.func) in ("copy.deepcopy", "deepcopy") and c.args and isinstance(c.args[0], ast.Name):
+            ds = flow.defs_of(c.args[0])
+            if len(ds) == 1 and ds[0].kind in ("comp", "for") and isinstance(ds[0].value, ast.Name):
+                src0 = ds[0].value.id
+    apps0 = [st for st, m, args in builder_sites(ff, flow, src0) if m == "append"] if src0 else []
+    main = [lp for a0 in apps0 for lp in enclosing(ff, a0, (ast.For,))[:1]]
+    if len(main) != 1:
+        raise AnchorMissing("_add_charge_conjugate_decays: the loop that collects the source table of each CDecay was not found")
+    main = main[0]
+    W = flow.expand(main.iter)
+    # (a) the names treated are the CDecay names minus those that have a Decay block ("Decay wins"):
+    #     either the work list is filtered (`n not in <mother names of the Decay blocks>`), or those names are removed from it
     k = ckey(ff, None, "decay-wins")
     ok = False
-    for c in removes:
-        lst = flow.expand(c.func.value)
-        if txt(lst) != "self.list_charge_conjugate_decays()":
-            continue
-        a = flow.expand(c.args[0])
-        # element of [n for n in cdecays if n in mother_names_decays]
-        t = txt(a)
-        if t.startswith("__elem__([") and " if " in t and t.endswith("in [get_decay_mother_name(__elem__(self._parsed_decays)) for tree in self._parsed_decays]])".replace("for tree in", "for " + t.rsplit(" for ", 1)[1].split(" in ")[0] + " in")):
-            comp = a.args[0]
-            g = comp.generators[0]
-            if len(g.ifs) == 1 and isinstance(g.ifs[0], ast.Compare) and isinstance(g.ifs[0].ops[0], ast.In) \
-                    and txt(g.iter) == "self.list_charge_conjugate_decays()":
-                from .common import enclosing
-                lps = enclosing(ff, c, (ast.For,))
-                conds = [cd for cd in guards.path_conditions(ff.node, stmt_of(ff, c), stop_at=lps[0] if lps else None) if cd[0] == "if"]
-                if lps and not conds:
-                    ok = True
-    if ok:
-        ctx.holds("C03.6", k, where(ff, removes[0]), "a CDecay name that also has a Decay block is dropped from the work list (Decay wins)", 3)
+    if isinstance(W, ast.ListComp) and len(W.generators) == 1 and txt(W.generators[0].iter) == WORK and txt(W.elt) == f"__elem__({WORK})":
+        ifs = W.generators[0].ifs
+        ok = len(ifs) == 1 and isinstance(ifs[0], ast.Compare) and isinstance(ifs[0].ops[0], ast.NotIn) and txt(ifs[0].left) == f"__elem__({WORK})" \
+            and txt(ifs[0].comparators[0]) == NAMES
+        where_ = main
+    elif txt(W) == WORK:
+        removes = [c for c in pf.calls_in(ff.node) if isinstance(c.func, ast.Attribute) and c.func.attr == "remove" and txt(flow.expand(c.func.value)) == WORK]
+        where_ = removes[0] if removes else ff.node
+        for c in removes:
+            a_ = flow.expand(c.args[0]) if c.args else None
+            # the removed name is an element of [n for n in <CDecay names> if n in <Decay mother names>]
+            if isinstance(a_, ast.Call) and txt(a_.func) == "__elem__" and isinstance(a_.args[0], ast.ListComp):
+                comp = a_.args[0]
+                g = comp.generators[0]
+                if len(comp.generators) == 1 and txt(g.iter) == WORK and txt(comp.elt) == f"__elem__({WORK})" and len(g.ifs) == 1 and isinstance(g.ifs[0], ast.Compare) \
+                        and isinstance(g.ifs[0].ops[0], ast.In) and txt(g.ifs[0].left) == f"__elem__({WORK})" and txt(g.ifs[0].comparators[0]) == NAMES:
+                    lps = enclosing(ff, c, (ast.For,))
+                    conds = [cd for cd in guards.path_conditions(ff.node, stmt_of(ff, c), stop_at=lps[0] if lps else None) if cd[0] == "if"]
+                    if lps and not conds and flow.cfg.dominates(flow.cfg.node_of(lps[0]), flow.cfg.node_of(main)):
+                        ok = True
     else:
-        ctx.violation("C03.6", k, where(ff, ff.node), "CDecay names that already have a Decay block are not (exactly) the ones removed from the work list")
+        where_ = main
+    if ok:
+        ctx.holds("C03.6", k, where(ff, where_), "a CDecay name that also has a Decay block is dropped from the work list (Decay wins)", 3)
+    else:
+        ctx.violation("C03.6", k, where(ff, where_), "CDecay names that already have a Decay block are not (exactly) the ones removed from the work list")
     # (b) source lookup inside try; append only on success; miss list in the handler
     # the list the deep copies are made from
     src_name = None
@@ -294,12 +317,36 @@ def c03_6(ctx, ss):
         v = flow.expand(args[0])
         t = txt(v)
         kk = ckey(ff, None, "source")
-        want = canon("self._parsed_decays[{__elem__(enumerate(self._parsed_decays))[1].children[0].children[0].value: __elem__(enumerate(self._parsed_decays))[0] for i, t in enumerate(self._parsed_decays)}[find_charge_conjugate_match(__elem__(self.list_charge_conjugate_decays()), self.dict_charge_conjugates())]]")
-        if t == want:
+        # source tree = self._parsed_decays[ {mother name of table i: i}[ find_charge_conjugate_match(<this CDecay name>, <ChargeConj table>) ] ]
+        oks = False
+        pos = None
+        if isinstance(v, ast.Subscript) and txt(v.value) == "self._parsed_decays" and isinstance(v.slice, ast.Subscript) and isinstance(v.slice.value, ast.DictComp):
+            dc_, key_ = v.slice.value, v.slice.slice
+            g = dc_.generators[0]
+            en = "enumerate(self._parsed_decays)"
+            okd = len(dc_.generators) == 1 and not g.ifs and txt(g.iter) == en and txt(dc_.value) == f"__elem__({en})[0]" \
+                and txt(dc_.key) in (f"__elem__({en})[1].children[0].children[0].value", f"get_decay_mother_name(__elem__({en})[1])")
+            okk = isinstance(key_, ast.Call) and txt(key_.func) == "find_charge_conjugate_match" and len(key_.args) == 2 and not key_.keywords \
+                and txt(key_.args[0]) == f"__elem__({txt(W)})" and txt(key_.args[1]) == "self.dict_charge_conjugates()"
+            oks = okd and okk and any(st is x for x in ast.walk(main))
+            pos = v.slice
+        if oks:
             ctx.holds("C03.6", kk, where(ff, st), "source tree = table of find_charge_conjugate_match(CDecay name, ChargeConj table)", 4)
         else:
             ctx.violation("C03.6", kk, where(ff, st), f"the source table of a CDecay is `{t[:160]}`")
-        if parts and parts[0][1] == "body" and all(any(isinstance(x, ast.Call) and txt(x.func).endswith(".append") for s in h.body for x in ast.walk(s)) for h in parts[0][0].handlers):
+        # a CDecay whose source table does not exist is a miss: nothing is collected for it, its name goes to the miss list.
+        # Forms: lookup + append inside try with handlers that record the miss; or `if name in <table index>: … else: record`.
+        okm = False
+        if parts and parts[0][1] == "body" and all(any(isinstance(x, ast.Call) and txt(x.func).endswith(".append") for s_ in h.body for x in ast.walk(s_)) for h in parts[0][0].handlers):
+            okm = True
+        else:
+            conds = [(flow.expand(e), pol) for kind, e, pol in guards.path_conditions(main, st, stop_at=main) if kind == "if"]
+            mem = [(e, pol) for e, pol in conds if isinstance(e, ast.Compare) and isinstance(e.ops[0], ast.In) and pos is not None
+                   and txt(e.comparators[0]) == txt(pos.value) and txt(e.left) == txt(pos.slice)]
+            if len(conds) == 1 and len(mem) == 1 and mem[0][1] is True:
+                ifs_ = [x for x in main.body if isinstance(x, ast.If) and any(st is y for y in ast.walk(x))]
+                okm = bool(ifs_) and bool(ifs_[0].orelse) and any(isinstance(x, ast.Call) and txt(x.func).endswith(".append") for s_ in ifs_[0].orelse for x in ast.walk(s_))
+        if okm:
             ctx.holds("C03.6", ckey(ff, None, "miss"), where(ff, st), "a CDecay without a source table is recorded as a miss and adds nothing", 2)
         else:
             ctx.violation("C03.6", ckey(ff, None, "miss"), where(ff, st), "a CDecay without a source table is not handled as a miss")
